@@ -24,7 +24,13 @@ func (d D) Int(lo, hi int, label string) int {
 
 func (d D) Pick(n int, label string) int { return d.Int(0, n-1, label) }
 
-func (d D) Chance(pct int, label string) bool { return d.Int(0, 99, label) < pct }
+// Chance is true with probability pct%; a shrunk draw (0) means false, so optional features
+// disappear while shrinking.
+func (d D) Chance(pct int, label string) bool { return d.Int(0, 99, label) >= 100-pct }
+
+// Likely is true with probability pct%; a shrunk draw (0) means true (use it when the true
+// branch is the simpler one).
+func (d D) Likely(pct int, label string) bool { return d.Int(0, 99, label) < pct }
 
 func (d D) Of(xs []string, label string) string { return xs[d.Pick(len(xs), label)] }
 
